@@ -141,6 +141,18 @@ CHECKS = {
   design_ref="DESIGN.md 3.2, 6 (C12)",
   note="Trusted: TLC, helper vpa; glob results compared in byte order; ~user outside the statement.",
   technique="TLA+ reference of brace / range / glob expansion enumerated by TLC; every case replayed on the binary"),
+ "C13": dict(
+  category="model_checking",
+  text="On the tagged characters of spec/ShellLex.tla an expansion replaces its reference by the produced text tagged `exp` and "
+       "operators are recognised only on `bare` characters; TLC checks NoRescan on this reference composition and enumerates 17 "
+       "payloads (each operator character alone and embedded, hidden commands and redirections) x delivery {$N, ${N}, $(..), "
+       "backquotes, a `*` match on a file of that name} x {unquoted, double-quoted} x {first, middle, last argument}; every case "
+       "runs on the real binary in a scratch directory; oracle: the program ran exactly once, in the foreground (its record is "
+       "there when the shell exits), with the payload as argument text (one argument inside double quotes), no hidden command "
+       "ran, no file was created.",
+  design_ref="DESIGN.md 3.2, 6 (C13)",
+  note="Trusted: TLC, helpers; unquoted produced text with blanks may arrive split.",
+  technique="TLA+ tagged-character reference (NoRescan) checked by TLC; enumerated payload deliveries replayed on the binary"),
  "C06": dict(
   category="model_checking",
   text="TLC explores every interleaving of child status changes (with Linux's report coalescing), foreground-wait iterations, "
